@@ -52,6 +52,17 @@ CLAIMS = {
           'label array and deblend map compared after every step) plus a fresh-object oracle on every public derived attribute. [partial] dtype range preservation and polygon geometry are checked on the implementation only.',
   'note': 'Trusted: Lean kernel + standard axioms; table extractor tools/extract_tables.py; hand model Model/Segm.lean tied by differential testing; reading of the statement about deblend maps as in DESIGN §5 C05. Known finding F2b (non-connected label: polygons per region).',
  },
+ 'C06': {
+  'design_ref': 'DESIGN.md §5 C06',
+  'technique': 'Lean 4 proofs about the merge/bookkeeping model of deblend_sources (per-source deblender as a parameter): schedule independence + refinement invariant by induction over the merge loop',
+  'text': 'Proved in Lean: for EVERY completion order of the worker futures (any list in which each task index occurs) the parallel branch fills `results` identically and therefore returns exactly what the serial branch returns '
+          '(fillResults_any_order, parallel_eq_serial, parallel_order_irrelevant). For every work list whose per-source results satisfy the contract the code itself enforces (children cover exactly the parent - the footprint guard - and are numbered 1..k; distinct non-zero parent labels), '
+          'the merge loop with its running max_label (merge_refines, by the loop invariant J / J_step / J_fold): leaves the set of non-zero pixels unchanged; leaves every pixel of an unsplit segment (label included) unchanged; puts every output segment inside one input segment; '
+          'gives children labels above every original label (no collision across parents); records for each split parent exactly the labels found on its pixels. relabel=True yields labels 1..N (finalize_labels_1N, reusing C05 relabel_labels). '
+          '[param] the watershed/multi-threshold step is a parameter; its contract and child >= npixels are checked on every generated case. Tie: real _deblend_source results are fed to the model and its output (array + map) is compared exactly with deblend_sources run serially '
+          'and under a patched executor with reverse/rotated/random completion orders (thorough: real spawn pool).',
+  'note': 'Trusted: Lean kernel + standard axioms; hand model Model/Deblend.lean tied by differential testing; skimage watershed and _detect_sources inside the per-source deblender are not modelled; real OS scheduling is replaced by adversarial orders through a patched as_completed.',
+ },
 }
 
 _todo = 'check not built yet in this round (see DESIGN.md §10 build order); not claimed until its machinery is committed'
